@@ -8,7 +8,7 @@ real regclient.ImageCopy; the request log of the model registries is judged by T
 C14 obligations of (P) spec/CopyProp.tla (counters at the end of every successful fault-free run).
 See design.d/C03-C04-C14.md.
 """
-import copy_common as cc
+from props import copy_common as cc
 import vlib
 
 
@@ -23,10 +23,11 @@ def run(ctx):
     th = ctx.thorough
     rng = e.rng
 
-    runs = [("ImageCopyMC", "C14_mc_quick.cfg", "img / dup: every pre-existing subset x 6 pairings x mount on/off x 3 tag states, reduced", {})]
+    runs = [("ImageCopyMC", "C14_mc_quick.cfg", "img / empty / schema1 / inline: every pre-existing subset x 6 pairings x mount on/off x 3 tag states, reduced", {}),
+            ("ImageCopyMC", "C14_mc_quick2.cfg", "dup / idx2 / docker: corner targets x 3 registry pairings x mount on/off x 3 tag states, reduced", {})]
     if th:
-        runs += [("ImageCopyMC", "C14_mc_t1.cfg", "8 shapes: every pre-existing subset x 6 pairings x mount on/off x 3 tag states, reduced", {"timeout": 3000}),
-                 ("ImageCopyMC", "C14_mc_t2.cfg", "14 shapes x 5 feature sets x corner targets x source by tag / digest, reduced", {"timeout": 3000})]
+        runs += [("ImageCopyMC", "C14_mc_t1.cfg", "6 shapes incl. idx2 / docker: every pre-existing subset x 6 pairings x mount on/off x 3 tag states, reduced", {"timeout": 3000}),
+                 ("ImageCopyMC", "C14_mc_t2.cfg", "14 shapes x 6 pairings x mount on/off x corner targets x 3 tag states, reduced", {"timeout": 3000})]
     mc, states, trans = cc.run_mc(ctx, runs)
 
     scripts = cc.tlc_scripts(e, "C14_gen.cfg", 1200 if th else 160, "tlc")
@@ -51,6 +52,7 @@ def run(ctx):
     res = e.run(scripts + mx + mx2 + extra, "minimal")
 
     acc, rej = e.validate(res, "C14", max_reports=40)
+    e.check_stalls()
     demos = e.binding_demo(res) if not ctx.violations else []
 
     cov = cc.summarize(res)
